@@ -31,6 +31,7 @@ E == TraceLog[l]
 Modes == {"reply", "error", "unknown", "undecodable", "flag-more", "flag-oneway", "flag-upgrade"}
 T08 == /\ Ev("C08") /\ E.mode \in Modes
        /\ E.result_ok
+       /\ E.decode_ok      \* the generated Go types take the reference JSON encoding of the declared varlink types
        /\ (E.mode \in {"reply", "error"}) =>
             /\ E.one_call_frame /\ E.one_reply_frame
             /\ E.wire_method_ok /\ E.wire_params_ok /\ E.wire_flags_plain
